@@ -26,6 +26,9 @@ ITEM_LIMIT = {"quick": 600, "thorough": 1800}
 
 def items(tier):
     exprs = L.solids(tier) + L.boundary_exprs(tier) + L.products(tier)
+    # boundaries of products: (dA x B) u (A x dB), also for a first factor that depends on the second
+    exprs += [L.B(L.X(L.C1, L.IT)), L.B(L.X(L.I01, L.IT)), L.B(L.X(L.SQ, L.I(0, 2, var="y"))), L.B(L.X(L.C_GROW, L.IT)),
+              L.B(L.X(L.I_GROW, L.IT))]
     return [{"name": G.show(a), "ast": a} for a in L.dedupe(exprs)]
 
 
@@ -230,6 +233,48 @@ def _boundary_side(a, D, thetas, scale, res, viol, porder, order):
                             viol("ref-boundary-point-rejected", "rejects %d of %d reference boundary points (float32-rounded), e.g. %s at %s" % (
                                 len(bad), int(on.sum()), bp[i].tolist(), th), {"ast": a, "point": bp[i], "theta": th},
                                 flavor="%s|%s" % (top_sig(a), "+".join(sorted(leaf_flavors(a)))))
+        # boundaries of products of primitives: independent description (dA x B) u (A x dB)
+        if a["k"] == "boundary" and a["a"]["k"] == "prod" and a["a"]["a"]["k"] in G.PRIMS and a["a"]["b"]["k"] == "interval":
+            A, Bf = a["a"]["a"], a["a"]["b"]
+            tv = Bf["var"]
+            lo, hi = float(G.ev(Bf["a"], {}, 1)[0]), float(G.ev(Bf["b"], {}, 1)[0])
+            cand = []
+            for t in np.linspace(lo, hi, 7)[1:-1]:            # mantle: boundary of A(t) at interior t
+                row = {tv: np.array([[t]])}
+                row.update({v: np.array([[th[v]]]) for v in porder})
+                bp = G.boundary_points(A, row, (np.arange(16) + 0.37) / 16)
+                cand.append(np.concatenate([bp, np.full((len(bp), 1), t)], 1))
+            for t in (lo, hi):                                # lids: members of A(t) at the end points of B
+                row = {tv: np.array([[t]])}
+                row.update({v: np.array([[th[v]]]) for v in porder})
+                bx = G.ref_box(A, row)[0]
+                q = lattice_points(bx, inflate=-0.1, m2=5, m1=7, m3=3)
+                vq = {A["var"]: q, tv: np.full((len(q), 1), t)}
+                vq.update({v: np.full((len(q), 1), th[v]) for v in porder})
+                q = q[G.sdf(A, vq) < -1e-3 * scale]
+                cand.append(np.concatenate([q, np.full((len(q), 1), t)], 1))
+            cand = np.concatenate(cand)
+            vals = split_space(a, cand)
+            for v in porder:
+                vals[v] = np.full((len(cand), 1), th[v])
+            P32 = Bd.points_of(vals, order)
+            v32 = Bd.to_vals(P32)
+            for v in porder:
+                v32[v] = vals[v]
+            on = G.near_boundary(a["a"], v32, 2e-6 * scale)
+            R = Bd.points_of(vals, porder)
+            res["transitions"] += 1
+            try:
+                lib = _truth(_contains(D, P32, R), len(cand))
+                res["evals"] += int(on.sum())
+                bad = np.where(on & ~lib)[0] if lib is not None else []
+                if len(bad):
+                    i = int(bad[0])
+                    viol("product-boundary-point-rejected", "rejects %d of %d reference points of the product boundary (mantle and lids), e.g. %s at %s" % (
+                        len(bad), int(on.sum()), cand[i].tolist(), th), {"ast": a, "point": cand[i], "theta": th}, flavor=kind_sig(a["a"]))
+            except Exception as e:
+                if not is_deliberate(e):
+                    viol("contains-error", "_contains on product boundary points raised %s" % exc_sig(e), {"ast": a})
         # own samples
         for mode, n in (("grid", 24), ("random", 64)):
             try:
